@@ -37,8 +37,86 @@ LIB_ERRORS = {"geneticengine.exceptions.GeneticEngineError", "geneticengine.gram
 
 
 # ------------------------------------------------------------------------------------------------ R1
+def rule_r1_model(ctx: Ctx) -> None:
+    """create_node interpreted on one symbolic type of every form the grammar can present (sa/treemodel.py): on every path
+    that does not raise, the value built is a value of that form - base types come from the matching decider primitive, a
+    tuple has one created value per parameter in order, a list is a GengyList of created elements, a union / abstract symbol
+    yields a created value of one of its members / productions, a production is constructed from one created value per
+    declared field in order - and at least one path does not raise."""
+    from ..treemodel import (A, ABSTRACT, B, Budget, INT, LIST_A, PROD, Sym, TUPLE_AB, TreeModel, TypeV, UNION_AB, UNKNOWN,
+                             create_node_runs, BUILTIN_TYPES)
+    cn = ctx.fn(CREATE_NODE)
+    model = TreeModel(ctx, fields={PROD: [("f1", A), ("f2", LIST_A)]})
+    node = lambda t: Sym("node:" + t.name)   # noqa: E731
+
+    def check(form: str, sym, trace, rv) -> tuple[Optional[bool], str]:
+        calls = [e for e in trace if e.kind == "call"]
+        created = [e.kwargs.get("starting_symbol") for e in calls if e.name == "create_node"]
+        if form in ("int", "float", "bool"):
+            prim = [e for e in calls if e.name in ("random_int", "random_float", "random_bool")]
+            if len(prim) == 1 and prim[0].name == "random_" + form and rv == Sym(f"random_{form}()"):
+                return True, ""
+            if rv is UNKNOWN:
+                return None, "returned value not followed"
+            return False, f"a field of type {form} receives {rv!r} (decider calls: {[e.name for e in prim]})"
+        if form == "tuple":
+            if rv == [node(A), node(B)]:
+                return True, ""
+            return (None if rv is UNKNOWN else False), f"tuple[A, B] yields {rv!r}, expected one created value per parameter in order"
+        if form == "list":
+            gl = [e for e in calls if e.name == "GengyList"]
+            if len(gl) == 1 and isinstance(gl[0].args[1], list) and all(x == node(A) for x in gl[0].args[1]) and rv == Sym("gengylist") \
+                    and all(c == A for c in created):
+                return True, ""
+            return (None if rv is UNKNOWN and not gl else False), f"list[A] yields {rv!r} from {[e.name for e in calls]}: not a GengyList of created A values"
+        if form == "union":
+            if len(created) == 1 and created[0] in (A, B) and rv == node(created[0]):
+                return True, ""
+            return (None if rv is UNKNOWN else False), f"Union[A, B] yields {rv!r} (created: {created!r}): not a created value of one of its members"
+        if form == "abstract":
+            if len(created) == 1 and created[0] in model.alternatives[ABSTRACT] and rv == node(created[0]):
+                return True, ""
+            return (None if rv is UNKNOWN else False), (f"an abstract symbol yields {rv!r} (created: {created!r}): not a created value of one "
+                                                         f"of its productions" + ("" if created else "; the abstract class itself is built"))
+        if form == "concrete":
+            ac = [e for e in calls if e.name == "apply_constructor"]
+            if len(ac) == 1 and ac[0].args[0] == PROD and ac[0].args[1] == [node(A), node(LIST_A)] and rv == Sym("built"):
+                return True, ""
+            return (None if rv is UNKNOWN and not ac else False), \
+                f"production P(f1: A, f2: list[A]) is built as {[(e.args[0], e.args[1]) for e in ac]!r} and returns {rv!r}: not one created value per declared field in order"
+        return None, "unknown form"
+
+    n = 0
+    for form, sym in (("int", BUILTIN_TYPES["int"]), ("float", BUILTIN_TYPES["float"]), ("bool", BUILTIN_TYPES["bool"]),
+                      ("tuple", TUPLE_AB), ("list", LIST_A), ("union", UNION_AB), ("abstract", ABSTRACT), ("concrete", PROD)):
+        try:
+            runs = create_node_runs(ctx, model, sym)
+        except Budget:
+            ctx.ob("C01.R1", cn, cn.node, f"create_node builds a value of the {form} form for a {form} type", None, "too many interpretations")
+            continue
+        verdict: Optional[bool] = True
+        why = ""
+        live = 0
+        for trace, rv, notes in runs:
+            if any(e.kind == "raise" for e in trace):
+                continue
+            live += 1
+            ok, w = check(form, sym, trace, rv)
+            if ok is False or (ok is None and verdict is True):
+                verdict, why = ok, w
+                if ok is False:
+                    break
+        if live == 0:
+            verdict, why = False, f"create_node raises on every path for a {form} type ({sym.name})"
+        n += 1
+        ctx.ob("C01.R1", cn, cn.node, f"create_node builds a value of the {form} form for a {form} type", verdict, why,
+               witness={"type": sym.name, "paths": live})
+    ctx.floor("C01.R1", n, 8, "type forms interpreted through create_node")
+
+
 def rule_r1(ctx: Ctx) -> None:
-    for fname in (CREATE_NODE, STACK):
+    rule_r1_model(ctx)
+    for fname in (STACK,):
         fn = ctx.fn(fname)
         chains = dispatch_chains(fn)
         if not chains:
@@ -298,8 +376,11 @@ def rule_r4(ctx: Ctx) -> None:
 # ------------------------------------------------------------------------------------------------ R5
 def rule_r5(ctx: Ctx) -> None:
     n = 0
-    for fname in (CREATE_NODE, STACK, TREE_MUTATE):
-        fn = ctx.fn(fname)
+    for anchor in (CREATE_NODE, STACK, TREE_MUTATE):
+        ctx.fn(anchor)   # the three builders must exist; the loops may live in helpers they call
+    scope = [f for f in ctx.prog.functions.values() if f.module.name.startswith("geneticengine.representations")
+             and isinstance(f.node, (ast.FunctionDef, ast.AsyncFunctionDef))]
+    for fn in sorted(scope, key=lambda x: x.fullname):
         for l in walk_local(fn.node):
             if not (isinstance(l, ast.For) and any(isinstance(c, ast.Call) and call_name(c) == "get_arguments" for c in ast.walk(l.iter))):
                 continue
